@@ -1015,6 +1015,9 @@ def _dotted(node):
     return None
 
 
+_ADJACENT_ONLY = set()
+
+
 def _stable_expr(e, stable, mutated, attr_stores, self_unstable=None):
     return _stable_expr0(e, stable, mutated, attr_stores, self_unstable)
 
@@ -1033,6 +1036,9 @@ def _stable_expr0(e, stable, mutated, attr_stores, self_unstable):
         return e.attr not in attr_stores and e.attr not in _MODULE_ATTR_STORES and _stable_expr0(e.value, stable, mutated, attr_stores, self_unstable)
     if isinstance(e, ast.Subscript):
         base = e.value
+        if isinstance(e.slice, ast.Name) and e.slice.id in stable and isinstance(base, ast.Name) and base.id in stable and base.id not in mutated:
+            _ADJACENT_ONLY.add(id(e))          # keyed read: only moved into the statement that directly follows (see _named_values)
+            return True
         return isinstance(e.slice, ast.Constant) and isinstance(base, ast.Name) and base.id in stable and base.id not in mutated
     if isinstance(e, (ast.BoolOp,)):
         return all(_stable_expr0(v, stable, mutated, attr_stores, self_unstable) for v in e.values)
@@ -1075,6 +1081,7 @@ def _regionwise(fn, v, stores, loads):
 
 def _named_values(fn, self_unstable=None):
     n_done = 0
+    _ADJACENT_ONLY.clear()
     for _ in range(6):
         stores, loads = {}, {}
         for n in _walk_local(fn):
@@ -1110,6 +1117,15 @@ def _named_values(fn, self_unstable=None):
         never_stored = {p for p in params if p not in stores} | {"self"}
         free = {k for k in loads if k not in stores and k not in params}      # globals / builtins / enclosing names
         changed = False
+        # inside the body of a for loop, a target name bound by that loop only is one value per iteration
+        loop_stable = {}
+        for lp_ in _walk_local(fn):
+            if isinstance(lp_, (ast.For, ast.AsyncFor)):
+                own = {x.id for x in ast.walk(lp_.target) if isinstance(x, ast.Name) and len(stores.get(x.id, [])) == 3}
+                if own:
+                    holder = ast.Module(body=lp_.body, type_ignores=[])
+                    for b_ in _blocks(holder):
+                        loop_stable.setdefault(id(b_), set()).update(own)
         for blk in _blocks(fn):
             for i, st in enumerate(blk):
                 if not (isinstance(st, ast.Assign) and len(st.targets) == 1 and isinstance(st.targets[0], ast.Name)):
@@ -1125,7 +1141,7 @@ def _named_values(fn, self_unstable=None):
                 # operands: parameters that are never rebound, globals, and locals bound exactly once by an earlier plain assignment
                 single_before = {k for k, v_ in stores.items() if len(v_) == 1 and isinstance(v_[0], ast.Name) and k != v and
                                  (getattr(v_[0], "lineno", 10**9), getattr(v_[0], "col_offset", 0)) < (st.lineno, st.col_offset) and k not in loop_targets}
-                stable = never_stored | free | single_before
+                stable = never_stored | free | single_before | loop_stable.get(id(blk), set())
                 # mutation of the operands is judged for the statements between the definition and its last use (below)
                 if not _stable_expr(st.value, stable, set(), set(), self_unstable):
                     continue
@@ -1178,6 +1194,10 @@ def _named_values(fn, self_unstable=None):
                 # a use inside a loop body that also mutates the operands later in the same iteration would see the old value: require the loop-free case
                 if dirty:
                     continue
+                if any(id(x) in _ADJACENT_ONLY for x in ast.walk(st.value)):
+                    nxt = next((k for k in range(i + 1, len(blk)) if not isinstance(blk[k], ast.Pass)), None)
+                    if nxt is None or last != nxt or isinstance(blk[nxt], (ast.For, ast.While, ast.AsyncFor, ast.Try, ast.With, ast.If)):
+                        continue
                 # inside a loop the defining statement runs again each iteration: fine, uses follow it in the same block
                 for u in uses:
                     _replace_node(fn, u, copy.deepcopy(st.value))
@@ -1251,9 +1271,10 @@ def _loops_to_comprehensions(fn):
             name = a.targets[0].id
             empty_list = isinstance(a.value, ast.List) and not a.value.elts
             empty_dict = isinstance(a.value, ast.Dict) and not a.value.keys
-            if not (empty_list or empty_dict) or len(lp.body) != 1:
+            lbody = [x for x in lp.body if not isinstance(x, ast.Pass)]
+            if not (empty_list or empty_dict) or len(lbody) != 1:
                 continue
-            st, cond = lp.body[0], None
+            st, cond = lbody[0], None
             if isinstance(st, ast.If) and not st.orelse and len(st.body) == 1:
                 st, cond = st.body[0], st.test
             tvars = {x.id for x in ast.walk(lp.target) if isinstance(x, ast.Name)}
@@ -1611,6 +1632,7 @@ def normalize(modname, tree):
             stats["named_conditions"] += _named_conditions(n)
             stats["named_values"] = stats.get("named_values", 0) + _named_values(n, unstable.get(n))
             stats["named_conditions"] += _named_conditions(n)
+            stats["comprehensions"] += _loops_to_comprehensions(n)          # loops whose body became one statement by the passes above
             stats["merged_ifs"] = stats.get("merged_ifs", 0) + _merge_nested_ifs(n)
     ast.fix_missing_locations(tree)
     return stats
